@@ -1,10 +1,11 @@
 """Configuration of ./check C02 (see cfg/README)."""
 
-_GROUPS = ['GlyfDec', 'GlyfLazy', 'Cmap4', 'Cmap12', 'CmapDir', 'Metrics', 'NameCff', 'Otl', 'CffDict']   # further checked-index model groups: Drive/Total<G>.lean + harness/area_total_<g>.go
+_GROUPS = ['GlyfDec', 'GlyfLazy', 'Cmap4', 'Cmap12', 'CmapDir', 'Metrics', 'NameCff', 'Otl', 'CffDict',
+           'CffSets', 'GtabLists', 'LookupList', 'GsubSub', 'SeqCtx', 'ChainCtx', 'GposSub']   # further checked-index model groups: Drive/Total<G>.lean + harness/area_total_<g>.go
 
 PROP = {'drive': ['Total'] + ['Total' + g for g in _GROUPS],
  'harness_files': ['area_total.go'] + ['area_total_' + g.lower() + '.go' for g in _GROUPS],
- 'modules': ['SfntV.Props.C02'],
+ 'modules': ['SfntV.Props.C02', 'SfntV.Props.C02B'],
  'required_theorems': ['C02_kern_no_panic', 'C02_kern_cost', 'C02_kern',
                        'C02_maxp_no_panic', 'C02_maxp_cost', 'C02_maxp',
                        'C02_header_no_panic', 'C02_header_cost', 'C02_header',
@@ -26,7 +27,28 @@ PROP = {'drive': ['Total'] + ['Total' + g for g in _GROUPS],
                        'C02_classdef_unrepaired_cost_fails', 'C02_classdef_unrepaired_cost', 'C02_otl_agree', 'C02_gdef_concrete_no_panic',
                        'C02_gdef_unrepaired_alias', 'C02_gdef_alias_cached',
                        'C02_simple_agrees', 'C02_post_agrees', 'C02_cffindexat_no_panic', 'C02_cffindexat_cost', 'C02_cffindexat_agrees',
-                       'C02_cffdict_no_panic', 'C02_cffdict_cost', 'C02_cfffloat_no_panic', 'C02_cfffloat_cost', 'C02_cffdict_agrees'],
+                       'C02_cffdict_no_panic', 'C02_cffdict_cost', 'C02_cfffloat_no_panic', 'C02_cfffloat_cost', 'C02_cffdict_agrees',
+                       'C02_charset_no_panic', 'C02_charset_cost', 'C02_encoding_no_panic', 'C02_encoding_cost',
+                       'C02_fdselect_no_panic', 'C02_fdselect_no_panic_caller', 'C02_fdselect_cost', 'C02_lazy_safe_fdselect',
+                       'C02_charset_agrees', 'C02_encoding_agrees', 'C02_fdselect_agrees', 'C02_langsys_no_panic',
+                       'C02_scripttable_no_panic', 'C02_scriptlist_no_panic', 'C02_featurelist_no_panic', 'C02_gtab_header_no_panic',
+                       'C02_langsys_cost', 'C02_scriptlist_cost_partial', 'C02_featurelist_cost', 'C02_langsys_agrees',
+                       'C02_lookuplist_no_panic', 'C02_lookuplist_gsub_no_panic', 'C02_lookuplist_gpos_no_panic', 'C02_extension_no_panic',
+                       'C02_lookuplist_cost_partial', 'C02_lookuplist_alias', 'C02_lookuplist_cost_fails', 'C02_lookuplist_agrees',
+                       'C02_gsub11_no_panic', 'C02_gsub12_no_panic', 'C02_gsub21_no_panic', 'C02_gsub31_no_panic',
+                       'C02_gsub41_no_panic', 'C02_gsub81_no_panic', 'C02_gsub_dispatch_no_panic', 'C02_gsub11_cost',
+                       'C02_gsub12_cost', 'C02_gsub21_cost_partial', 'C02_gsub31_cost_partial', 'C02_gsub41_cost',
+                       'C02_gsub81_cost_partial', 'C02_gsub21_cost_fails', 'C02_gsub11_agrees', 'C02_gsub12_agrees',
+                       'C02_gsub21_agrees', 'C02_gsub31_agrees', 'C02_gsub41_agrees', 'C02_gsub81_agrees',
+                       'C02_nested_no_panic', 'C02_seqctx1_no_panic', 'C02_seqctx2_no_panic', 'C02_seqctx3_no_panic',
+                       'C02_seqctx1_cost_partial', 'C02_seqctx2_cost', 'C02_seqctx3_cost_partial', 'C02_seqctx1_alias',
+                       'C02_seqctx1_cost_fails', 'C02_seqctx3_agrees', 'C02_chain1_no_panic', 'C02_chain2_no_panic',
+                       'C02_chain3_no_panic', 'C02_chain1_cost', 'C02_chain2_cost', 'C02_chain3_cost_partial',
+                       'C02_chain_zero_count', 'C02_chain1_agrees', 'C02_chain2_agrees', 'C02_chain3_agrees',
+                       'C02_gpos11_no_panic', 'C02_gpos12_no_panic', 'C02_gpos21_no_panic', 'C02_gpos22_no_panic',
+                       'C02_gpos31_no_panic', 'C02_gpos_dispatch_no_panic', 'C02_anchor_no_panic', 'C02_markarray_no_panic',
+                       'C02_gpos11_cost', 'C02_gpos12_cost', 'C02_gpos21_cost_partial', 'C02_gpos22_cost',
+                       'C02_gpos31_cost', 'C02_markarray_cost', 'C02_gpos11_agrees', 'C02_gpos12_agrees'],
  'areas': [('total', 3000, 40000)],
  'rule': 'distinct case lines (decoder, bytes); non-trivial = input of at least 4 bytes',
  'partial': [
